@@ -198,13 +198,16 @@ func (c *connection) onProcess(onConnect OnConnect, onRequest OnRequest) (proces
 			}
 			verifPoint(vpPanicDeferEnter, c, 0)
 			// cannot use recover() here, since we don't want to break the panic stack
+			if !c.IsActive() {
+				// closed by poller or user while the handler was running: their closeCallback could not
+				// take the processing lock. Run the callbacks here and keep holding the lock, as the
+				// normal exit path does, so that a later Close cannot run them a second time.
+				c.closeCallback(false, false)
+				return
+			}
 			c.unlock(processing)
 			verifPoint(vpPanicDeferAfterUnlock, c, 0)
-			if c.IsActive() {
-				c.Close()
-			} else {
-				c.closeCallback(false, false)
-			}
+			c.Close()
 		}()
 		verifPoint(vpTaskStart, c, 0)
 		// trigger onConnect first
